@@ -396,6 +396,9 @@ func finishCheck(o CheckOpts, w *World, reports []*OblReport, fnReports []FnRepo
 	assumedSet := map[string]bool{}
 	unknownSet := map[string]bool{}
 	for _, f := range fnReports {
+		if f.Mode == "real" {
+			assumedSet["machine arithmetic treated as mathematical in "+f.Function+": float64 values are exact reals there (no rounding, NaN or infinities); integers are mathematical with explicit wrap"] = true
+		}
 		for _, a := range f.Assumed {
 			assumedSet["assumed contract: "+a] = true
 		}
